@@ -57,6 +57,12 @@ def _boundary_cases():
             for extra in (1, 2, 3):
                 out.append(("faults", [("net", "accept"), ("open",), ("adv", 8), ("turn", 3), ("failw", 1, kind), ("send", 1, "ok", "idem"), ("turn", k)]
                             + [("send", 2 + i, "ok", "idem") for i in range(extra)] + [("adv", 3), ("heal",)]))
+    # messages held while the link is down are flushed onto a congested link: the first write blocks in drain() while the clock moves
+    # on, so a short-lived message behind it expires DURING the flush and must be discarded, not transmitted late
+    for wait in (3, 6, 7, 8, 9, 12, 40):
+        for lat in (1, 2):
+            out.append(("outage", [("net", "accept"), ("lat", lat), ("blockfirst", 1), ("open",), ("send", 1, "ok", "idem"), ("send", 2, "ok", "conn"),
+                                   ("send", 3, "ok", "idem"), ("adv", lat + wait), ("blockfirst", 0), ("block", 0), ("adv", 16)]))
     # peer reset while a drain is blocked, entry with / without retries
     for pol in ("idem", "nonidem"):
         out.append(("faults", [("net", "accept"), ("open",), ("adv", 8), ("block", 1), ("send", 1, "ok", pol), ("turn", 2),
